@@ -163,13 +163,17 @@ void harness (void)
   for (size_t k = 0; k < sizeof pfx - 1; k++)
     XV_ASSUME (set[k] == (unsigned char) pfx[k]);
 #endif
+#ifndef XV_NATIVE
   xv_str_reset ();
   xv_str_register ((const char *) phr, phr_len);
   xv_str_register ((const char *) set, set_len);
+#endif
   XV_IN (size_t, gk, nondet_size);
   XV_ASSUME (gk < 384);
   g_k = gk;
+#ifndef XV_NATIVE
   xv_ghost_idx[0] = gk; xv_ghost_idx[1] = (size_t) -1;
+#endif
 
 #ifdef WEAK
   XV_IN (size_t, out_size, nondet_size);
@@ -202,10 +206,12 @@ void harness (void)
   unsigned char p_pk = phr[pk];
   unsigned char s_gk = gk < set_len ? set[gk] : 0;
 
+#ifndef XV_NATIVE
   xv_phrase_p = phr; xv_phrase_n = phr_len; xv_phrase_absorbed = 0;
   xv_parse_n = 0; xv_dec_n = 0;
 #if defined M_descrypt || defined M_bigcrypt || defined M_bsdicrypt
   xv_des_keys = 0; xv_des_blocks = 0; xv_des_key_set = 0; xv_des_salt_set = 0;
+#endif
 #endif
   errno = 0;
   METHOD_FN ((const char *) phr, phr_len, (const char *) set, set_len, out, out_size, scr->b, scr_size);
@@ -334,7 +340,7 @@ void harness (void)
       if (out[4 + 2 * i] != (unsigned char) hex[d[i] >> 4] || out[5 + 2 * i] != (unsigned char) hex[d[i] & 15]) enc_ok = false;
     XV_ASSERT ("C02,C06", enc_ok, "the 32 characters are the lower-case hexadecimal form of the MD4 digest");
   }
-  XV_ASSERT ("C03", xv_md4_finals == 1 && xv_md4_upd_n == 2 * phr_len && XV_SAME_OBJ (xv_md4_upd_p, scr->b),
+  XV_ASSERT ("C03", xv_md4_finals == 1 && xv_md4_upd_n == 2 * phr_len,
              "exactly 2 * strlen (phrase) bytes of the UCS-2 buffer are hashed");
   XV_ASSERT ("C06", gk > 35 || xv_passwd_safe (out[gk]), "every character is passwd-safe");
 #endif
